@@ -236,6 +236,17 @@ func captureCorpus(thorough bool) []wireBody {
 			out = append(out, w)
 		}
 	}
+	// responses of the enveloped protocols too (a server or proxy that buffers a short response knows
+	// its length; over gRPC the status then still arrives in HTTP trailers, after the announced bytes)
+	nKnown := map[string]int{}
+	for _, w := range append([]wireBody(nil), out...) {
+		fam := fmt.Sprintf("%s/%s", w.Proto, w.Kind)
+		if !w.Request && !w.KnownLength && !(w.Proto == PConnect && w.Kind == KUnary) && len(w.Body) > 0 && len(w.Body) <= 64 && nKnown[fam] < 2 {
+			nKnown[fam]++
+			w.KnownLength = true
+			out = append(out, w)
+		}
+	}
 	sort.SliceStable(out, func(i, j int) bool { return len(out[i].Body) < len(out[j].Body) })
 	return out
 }
